@@ -39,23 +39,54 @@ Definition inst_unique (s : state) (x : id) : option bool :=
   end.
 
 (* uniquify._get_unique_name_modifier(definition): the first counter value k, counting up from the module
-   counter, such that no definition of the library carries the name nm ++ "_sdn_unique_<k>" and - when the
-   cell has an EDIF identifier idv - none carries an identifier equal, without case, to idv ++ "_sdn_unique_<k>".
+   counter, such that - when the cell has a name nm - no definition of the library carries the name
+   nm ++ "_sdn_unique_<k>" and - when the cell has an EDIF identifier idv - none carries an identifier equal,
+   without case, to idv ++ "_sdn_unique_<k>".
    The Python loop is a [while True]; here the search has fuel (two candidates per definition of the
    library plus one always suffice: Proofs/UniqFresh.v, fresh_ctr_total) and None = out of fuel. *)
 Definition name_taken (s : state) (defs : list id) (v : str) : bool :=
   existsb (fun c => match get_str s c str_NAME with Some w => str_eqb w v | None => false end) defs.
 Definition ident_taken (s : state) (defs : list id) (v : str) : bool :=
   existsb (fun c => match get_str s c str_IDENT with Some w => str_eqb (lower w) (lower v) | None => false end) defs.
-Definition suffix_taken (s : state) (defs : list id) (nm : str) (idv : option str) (suffix : str) : bool :=
-  name_taken s defs (nm ++ suffix) ||
+Definition suffix_taken (s : state) (defs : list id) (onm : option str) (idv : option str) (suffix : str) : bool :=
+  match onm with Some nm => name_taken s defs (nm ++ suffix) | None => false end ||
   match idv with Some i => ident_taken s defs (i ++ suffix) | None => false end.
-Fixpoint fresh_ctr (fuel : nat) (s : state) (defs : list id) (nm : str) (idv : option str) (k : nat) : option nat :=
+Fixpoint fresh_ctr (fuel : nat) (s : state) (defs : list id) (onm : option str) (idv : option str) (k : nat) : option nat :=
   match fuel with
   | O => None
-  | S f => if suffix_taken s defs nm idv (str_uniq ++ dec k) then fresh_ctr f s defs nm idv (S k) else Some k
+  | S f => if suffix_taken s defs onm idv (str_uniq ++ dec k) then fresh_ctr f s defs onm idv (S k) else Some k
   end.
 Definition fresh_fuel (defs : list id) : nat := S (length defs + length defs).
+
+Definition is_some {A} (o : option A) : bool := match o with Some _ => true | None => false end.
+
+(* the renaming block of uniquify._make_instance_unique:
+     if reference.name is not None or "EDIF.identifier" in reference:
+         unique_suffix = _get_unique_name_modifier(reference)
+         if reference.name is not None: new_def.name = reference.name + unique_suffix
+         if "EDIF.identifier" in new_def: new_def["EDIF.identifier"] = new_def["EDIF.identifier"] + unique_suffix
+   x1 is the state after Definition.clone, d the cell, d' its copy (in no library yet), lib the library of d *)
+Definition rename_block (x1 : xstate) (lib d d' : id) : XR :=
+  let onm := get_str (st x1) d str_NAME in
+  let oid := get_str (st x1) d str_IDENT in
+  if is_some onm || is_some oid then
+    let defs := kids (st x1) RDefs lib in
+    match fresh_ctr (fresh_fuel defs) (st x1) defs onm oid (uniq_ctr x1) with
+    | None => (x1, Some XOutOfFuel)
+    | Some k =>
+        let suffix := str_uniq ++ dec k in
+        let x2 := mkX (st x1) (S k) (flat_ctr x1) in
+        let set_ident (x3 : xstate) : XR :=
+          match get_str (st x3) d' str_IDENT with
+          | Some idv => liftR x3 (dict_set (st x3) d' str_IDENT (VStr (idv ++ suffix))) (fun x4 => (x4, None))
+          | None => (x3, None)
+          end in
+        match onm with
+        | Some nm => liftR x2 (dict_set (st x2) d' str_NAME (VStr (nm ++ suffix))) set_ident
+        | None => set_ident x2
+        end
+    end
+  else (x1, None).
 
 (* uniquify._make_instance_unique; the library of the cell is the same before and after Definition.clone
    (Proofs/UniqNames.v, rd_clone_definition), so [lib] also stands for definition.library in the helper *)
@@ -70,24 +101,7 @@ Definition make_instance_unique (x : xstate) (inst : id) : XR :=
           let idx := index_of d (kids s RDefs lib) in
           let '(r, d') := clone_definition s d in
           liftR x r (fun x1 =>
-            let named : XR :=
-              match get_str (st x1) d str_NAME with
-              | Some nm =>
-                  let defs := kids (st x1) RDefs lib in
-                  match fresh_ctr (fresh_fuel defs) (st x1) defs nm (get_str (st x1) d str_IDENT) (uniq_ctr x1) with
-                  | None => (x1, Some XOutOfFuel)
-                  | Some k =>
-                      let suffix := str_uniq ++ dec k in
-                      let x2 := mkX (st x1) (S k) (flat_ctr x1) in
-                      liftR x2 (dict_set (st x2) d' str_NAME (VStr (nm ++ suffix))) (fun x3 =>
-                        match get_str (st x3) d' str_IDENT with
-                        | Some idv => liftR x3 (dict_set (st x3) d' str_IDENT (VStr (idv ++ suffix))) (fun x4 => (x4, None))
-                        | None => (x3, None)
-                        end)
-                  end
-              | None => (x1, None)
-              end in
-            match named with
+            match rename_block x1 lib d d' with
             | (x5, Some e) => (x5, Some e)
             | (x5, None) =>
                 liftR x5 (op_add (st x5) RDefs lib d' (Some (S idx))) (fun x6 =>
